@@ -170,11 +170,16 @@ pub fn spec_dec_block(c: &Rc2, mut block: InOut<'_, '_, Block<Rc2>>) {
     *block.get_out() = Array(bcref::rc2::decrypt_with(&c.keys, &b));
 }
 
+// The real helpers are replaced by their contracts (the reference's round functions, c_rc2_mix .. c_rc2_reverse_mash);
+// the reference's round functions themselves are uninterpreted here (`ufr`): what is checked is that the block
+// functions apply the same rounds, to the same data, with the same j, in the same order as sections 3.4 / 4.4.
 // @ob name=c_rc2_enc_state props=C09,C20 fn=rc2::Rc2::encrypt_block uses=c_rc2_mix,c_rc2_mash timeout=600
 #[kani::proof]
-#[kani::stub(Rc2::mix, spec_mix)]
-#[kani::stub(Rc2::mash, spec_mash)]
-#[kani::unwind(18)]
+#[kani::stub(Rc2::mix, ufr::mix)]
+#[kani::stub(Rc2::mash, ufr::mash)]
+#[kani::stub(bcref::rc2::mixing_round, ufr::mixing_round)]
+#[kani::stub(bcref::rc2::mashing_round, ufr::mashing_round)]
+#[kani::unwind(66)]
 fn c_rc2_enc_state() {
     let c = any_rc2();
     let b: [u8; 8] = kani::any();
@@ -185,9 +190,11 @@ fn c_rc2_enc_state() {
 }
 // @ob name=c_rc2_dec_state props=C09,C20 fn=rc2::Rc2::decrypt_block uses=c_rc2_reverse_mix,c_rc2_reverse_mash timeout=600
 #[kani::proof]
-#[kani::stub(Rc2::reverse_mix, spec_rmix)]
-#[kani::stub(Rc2::reverse_mash, spec_rmash)]
-#[kani::unwind(18)]
+#[kani::stub(Rc2::reverse_mix, ufr::rmix)]
+#[kani::stub(Rc2::reverse_mash, ufr::rmash)]
+#[kani::stub(bcref::rc2::r_mixing_round, ufr::r_mixing_round)]
+#[kani::stub(bcref::rc2::r_mashing_round, ufr::r_mashing_round)]
+#[kani::unwind(66)]
 fn c_rc2_dec_state() {
     let c = any_rc2();
     let b: [u8; 8] = kani::any();
@@ -312,13 +319,22 @@ fn c_rc2_bytes_api() {
     let mut blk = Array(b);
     cipher::BlockCipherDecrypt::decrypt_block(&c, &mut blk);
     assert!(blk.0 == bcref::rc2::decrypt(&buf[..n], t1, &b));
-    // from a slice: effective length 8 x len
+}
+
+// C11: Rc2 from a slice == Rc2 with effective length 8 x len, for every length 1..=128 and every key
+// @ob name=k_rc2_slice_eff props=C11,C09 fn=rc2::Rc2::new_from_slice,rc2::Rc2::new_with_eff_key_len uses=c_rc2_expand_symbolic timeout=600
+#[kani::proof]
+#[kani::stub(Rc2::expand_key, ufk::expand)]
+#[kani::unwind(130)]
+fn k_rc2_slice_eff() {
+    let buf: [u8; 128] = kani::any();
+    let n: usize = kani::any();
+    kani::assume(1 <= n && n <= 128);
+    kani::cover!(n == 128);
+    kani::cover!(n == 1);
     let d = Rc2::new_from_slice(&buf[..n]).unwrap();
     let e = Rc2::new_with_eff_key_len(&buf[..n], 8 * n);
     assert!(same(&d, &e));
-    let mut blk = Array(b);
-    cipher::BlockCipherEncrypt::encrypt_block(&d, &mut blk);
-    assert!(blk.0 == bcref::rc2::encrypt(&buf[..n], 8 * n, &b));
 }
 
 // KeyInit::new (32-byte key) is new_from_slice on the same bytes; clone gives an equal state
@@ -375,64 +391,86 @@ fn l_rc2_mash_inverse() {
     assert!(eqr(&r, &r0));
 }
 
-/// Uninterpreted inverse pairs for one fixed instance: (mix at j) <-> (reverse_mix at j + 3), mash <-> reverse_mash.
-/// Row = (kind/j, r_in, r_out); forward calls look up r_in, backward calls look up r_out; fresh results are
-/// constrained to keep the relation a bijection per kind.  Licensed by l_rc2_mix_inverse / l_rc2_mash_inverse.
+/// Uninterpreted inverse pairs for ONE key array (every call asserts that it is made with the key array of the first
+/// call, so a harness that mixes instances fails instead of being unsound): (mixing round at j) <-> (r-mixing round
+/// at j + 3), mashing round <-> r-mashing round.  Row = (r_in, r_out); forward calls look up r_in, backward calls
+/// look up r_out; fresh results are constrained to keep the relation a bijection.  Rows are kept in 17 slots by the
+/// (concrete) kind of the call (j / 4, or 16 for mash): rows of different kinds are unrelated.
+/// Licensed by c_rc2_mix .. c_rc2_reverse_mash (pure functions of (keys, r, j)) and l_rc2_mix_inverse / l_rc2_mash_inverse.
 pub mod ufr {
-    use super::{eqr, Rc2};
-    pub const MAXC: usize = 80;
-    pub static mut KIND: [usize; MAXC] = [0; MAXC]; // j of the forward mix (0,4,..,60), or 100 for mash
-    pub static mut X: [[u16; 4]; MAXC] = [[0; 4]; MAXC];
-    pub static mut Y: [[u16; 4]; MAXC] = [[0; 4]; MAXC];
-    pub static mut N: usize = 0;
+    use super::{eq64, eqr, Rc2};
+    pub const SLOTS: usize = 17;
+    pub const PER: usize = 8;
+    pub static mut KEYS: [u16; 64] = [0; 64];
+    pub static mut KSET: bool = false;
+    pub static mut X: [[[u16; 4]; PER]; SLOTS] = [[[0; 4]; PER]; SLOTS];
+    pub static mut Y: [[[u16; 4]; PER]; SLOTS] = [[[0; 4]; PER]; SLOTS];
+    pub static mut CNT: [usize; SLOTS] = [0; SLOTS];
     #[allow(static_mut_refs)]
-    fn fwd(kind: usize, x: [u16; 4]) -> [u16; 4] {
+    fn one_key(k: &[u16; 64]) {
         unsafe {
+            if !KSET { KEYS = *k; KSET = true; }
+            assert!(eq64(&KEYS, k));
+        }
+    }
+    #[allow(static_mut_refs)]
+    fn fwd(s: usize, k: &[u16; 64], x: [u16; 4]) -> [u16; 4] {
+        unsafe {
+            assert!(s < SLOTS);
+            one_key(k);
             let mut y: [u16; 4] = kani::any();
             let mut found = false;
             let mut i = 0;
-            while i < N {
-                if !found && KIND[i] == kind && eqr(&X[i], &x) { y = Y[i]; found = true; }
+            while i < CNT[s] {
+                if !found && eqr(&X[s][i], &x) { y = Y[s][i]; found = true; }
                 i += 1;
             }
             if !found {
                 let mut i = 0;
-                while i < N {
-                    if KIND[i] == kind { kani::assume(!eqr(&Y[i], &y)); }
+                while i < CNT[s] {
+                    kani::assume(!eqr(&Y[s][i], &y));
                     i += 1;
                 }
             }
-            assert!(N < MAXC);
-            KIND[N] = kind; X[N] = x; Y[N] = y; N += 1;
+            assert!(CNT[s] < PER);
+            X[s][CNT[s]] = x; Y[s][CNT[s]] = y; CNT[s] += 1;
             y
         }
     }
     #[allow(static_mut_refs)]
-    fn bwd(kind: usize, y: [u16; 4]) -> [u16; 4] {
+    fn bwd(s: usize, k: &[u16; 64], y: [u16; 4]) -> [u16; 4] {
         unsafe {
+            assert!(s < SLOTS);
+            one_key(k);
             let mut x: [u16; 4] = kani::any();
             let mut found = false;
             let mut i = 0;
-            while i < N {
-                if !found && KIND[i] == kind && eqr(&Y[i], &y) { x = X[i]; found = true; }
+            while i < CNT[s] {
+                if !found && eqr(&Y[s][i], &y) { x = X[s][i]; found = true; }
                 i += 1;
             }
             if !found {
                 let mut i = 0;
-                while i < N {
-                    if KIND[i] == kind { kani::assume(!eqr(&X[i], &x)); }
+                while i < CNT[s] {
+                    kani::assume(!eqr(&X[s][i], &x));
                     i += 1;
                 }
             }
-            assert!(N < MAXC);
-            KIND[N] = kind; X[N] = x; Y[N] = y; N += 1;
+            assert!(CNT[s] < PER);
+            X[s][CNT[s]] = x; Y[s][CNT[s]] = y; CNT[s] += 1;
             x
         }
     }
-    pub fn mix(_c: &Rc2, r: &mut [u16; 4], j: &mut usize) { assert!(*j % 4 == 0 && *j <= 60); *r = fwd(*j, *r); *j += 4; }
-    pub fn rmix(_c: &Rc2, r: &mut [u16; 4], j: &mut usize) { assert!(*j % 4 == 3 && *j <= 63); *r = bwd(*j - 3, *r); *j = j.wrapping_sub(4); }
-    pub fn mash(_c: &Rc2, r: &mut [u16; 4]) { *r = fwd(100, *r); }
-    pub fn rmash(_c: &Rc2, r: &mut [u16; 4]) { *r = bwd(100, *r); }
+    // stand-ins for the reference's round functions (bcref::rc2::{mixing,mashing,r_mixing,r_mashing}_round)
+    pub fn mixing_round(r: [u16; 4], k: &[u16; 64], j: usize) -> [u16; 4] { assert!(j % 4 == 0 && j <= 60); fwd(j / 4, k, r) }
+    pub fn r_mixing_round(r: [u16; 4], k: &[u16; 64], j: usize) -> [u16; 4] { assert!(j % 4 == 3 && j <= 63); bwd(j / 4, k, r) }
+    pub fn mashing_round(r: [u16; 4], k: &[u16; 64]) -> [u16; 4] { fwd(16, k, r) }
+    pub fn r_mashing_round(r: [u16; 4], k: &[u16; 64]) -> [u16; 4] { bwd(16, k, r) }
+    // stand-ins for the real helpers
+    pub fn mix(c: &Rc2, r: &mut [u16; 4], j: &mut usize) { *r = mixing_round(*r, &c.keys, *j); *j += 4; }
+    pub fn rmix(c: &Rc2, r: &mut [u16; 4], j: &mut usize) { *r = r_mixing_round(*r, &c.keys, *j); *j = j.wrapping_sub(4); }
+    pub fn mash(c: &Rc2, r: &mut [u16; 4]) { *r = mashing_round(*r, &c.keys); }
+    pub fn rmash(c: &Rc2, r: &mut [u16; 4]) { *r = r_mashing_round(*r, &c.keys); }
 }
 
 // C01 on the public block calls, both orders, every state
@@ -443,7 +481,7 @@ pub mod ufr {
 #[kani::stub(Rc2::mash, ufr::mash)]
 #[kani::stub(Rc2::reverse_mix, ufr::rmix)]
 #[kani::stub(Rc2::reverse_mash, ufr::rmash)]
-#[kani::unwind(81)]
+#[kani::unwind(66)]
 fn l_rc2_roundtrip() {
     let c = any_rc2();
     let b: [u8; 8] = kani::any();
